@@ -30,6 +30,10 @@ Modelling notes
     `xl_cell_to_rowcol (xl_rowcol_to_cell r c) = (r, c)` is C10's; the model passes the coordinates.
   * `merge_cells` takes the range in A1 notation; the parsing is C10's `cellToRowCol`, the model
     takes the four parsed coordinates.
+  * `recalculate_merged_cells` also removes the table's merge-owner range records from the formula-owner
+    archives (fixes/C12-stale-merge-owner-records.patch).  Documents created by the library have none;
+    the model's `reload` reads the merge region map only (tables loaded from documents written by
+    Numbers are covered by the check's fixture oracles, not by the model).
 Core Lean only.
 -/
 import NumbersModel.Model.Grid
